@@ -133,6 +133,9 @@ impl Property for GramProp {
         if case.kind == "expect-missing" && self.id == "C14" {
             return check_c14_text(case);
         }
+        if case.kind == "expect-open-parens" && self.id == "C14" {
+            return check_c14_open_parens(case.t0(), case.n as usize);
+        }
         if case.kind != "gram" {
             return Verdict::discard("case kind not applicable to this property", case.t0().to_string());
         }
@@ -349,6 +352,24 @@ fn check_c14_text(case: &Case) -> Verdict {
         vd.violations.push(Violation::new("C14", "not-diagnosed", format!("not-diagnosed:{err}"), format!("expected {err} at byte {exp} of {m:?}; errors: {:?}", r.errs.iter().map(|e| (e.k, e.b)).collect::<Vec<_>>())));
     } else if !has_tok {
         vd.violations.push(Violation::new("C14", "no-recovery-token", format!("no-recovery-token:{tok}"), format!("expected zero-width {tok} at byte {exp} of {m:?}")));
+    }
+    vd
+}
+
+/// C14 on a given text that ends with `open` parentheses still open: the error and `open` zero-width ')' at end of input
+fn check_c14_open_parens(m: &str, open: usize) -> Verdict {
+    let mut vd = Verdict { key: m.to_string(), nontrivial: true, ..Default::default() };
+    let r = match lex(Variant::Rel, m) {
+        Lexed::Ok(r) if !r.verif.budget_exceeded => r,
+        _ => return Verdict::discard("no result (C01 territory)", m.to_string()),
+    };
+    let exp = m.len();
+    let virt = r.toks.iter().filter(|t| t.t == T::RPAREN && t.empty() && t.b as usize == exp).count();
+    let has_err = r.errs.iter().any(|e| e.k == crate::api::EK::MissingExpectedRParen && e.b as usize == exp);
+    if !has_err {
+        vd.violations.push(Violation::new("C14", "not-diagnosed", "not-diagnosed:MissingExpectedRParen:inside-parens", format!("expected MissingExpectedRParen at end of input of {m:?}; errors: {:?}", r.errs.iter().map(|e| (e.k, e.b)).collect::<Vec<_>>())));
+    } else if virt != open {
+        vd.violations.push(Violation::new("C14", "no-recovery-token", "no-recovery-token:RPAREN:count", format!("{open} parentheses are open at end of input of {m:?} but {virt} zero-width RPAREN tokens were inserted")));
     }
     vd
 }
